@@ -36,7 +36,8 @@ use std::rc::Rc;
 use std::task::Poll;
 
 use ntex::util::{ByteString, Bytes};
-use ntex_io::testing::IoTest;
+use ntex::service::{ServiceFactory, fn_service};
+use ntex_io::{Io, testing::IoTest};
 use ntex_mqtt::error::SendPacketError;
 use ntex_mqtt::{MqttServiceConfig, v3, v5};
 
@@ -553,14 +554,47 @@ pub async fn run_case(v5: bool, c: &Fields) -> Fields {
     }
 }
 
-/// a real v3 client connection; the harness plays the broker
-async fn client3(_cap: u16) -> (v3::MqttSink, IoTest) {
-    unimplemented!("client role")
+/// a real client connection (role 1): the harness plays the broker on the peer end
+macro_rules! client_conn {
+    ($fname:ident, $v:ident, $tag:expr, $connack:expr) => {
+        async fn $fname(cap: u16) -> ($v::MqttSink, IoTest) {
+            let (peer, end) = IoTest::create();
+            peer.remote_buffer_cap(1 << 20);
+            let cfg = conn::shared_cfg($tag, MqttServiceConfig::new().set_max_send(cap));
+            let end = RefCell::new(Some(end));
+            let cfg2 = cfg.clone();
+            let connector = $v::client::MqttConnector::<String, _>::new().connector(fn_service(
+                move |_: ntex::connect::Connect<String>| {
+                    let io = end.borrow_mut().take().map(|e| Io::new(e, cfg2.clone()));
+                    async move { io.ok_or(ntex::connect::ConnectError::Unresolved) }
+                },
+            ));
+            let slot: conn::Slot<$v::MqttSink> = Rc::new(RefCell::new(None));
+            let slot2 = slot.clone();
+            ntex::rt::spawn(async move {
+                let svc = connector.pipeline(cfg).await.expect("connector");
+                let connect = $v::client::Connect::new("broker".to_string())
+                    .client_id("c")
+                    .keep_alive(ntex::time::Seconds::ZERO);
+                if let Ok(client) = svc.call(connect).await {
+                    *slot2.borrow_mut() = Some(client.sink());
+                    client.start_default().await;
+                }
+            });
+            settle().await;
+            let _connect = peer.read_any();
+            let connack: Vec<u8> = $connack(cap);
+            peer.write(connack);
+            settle().await;
+            let sink = slot.borrow().clone().expect("client sink");
+            (sink, peer)
+        }
+    };
 }
 
-async fn client5(_cap: u16) -> (v5::MqttSink, IoTest) {
-    unimplemented!("client role")
-}
+client_conn!(client3, v3, "C3", |_cap: u16| vec![0x20, 2, 0, 0]);
+// CONNACK: session present 0, success, properties: receive maximum = cap
+client_conn!(client5, v5, "C5", |cap: u16| vec![0x20, 6, 0, 0, 3, 0x21, (cap >> 8) as u8, cap as u8]);
 
 /// all cases of the input on single-threaded ntex runtimes; a panic that escapes the per-task guards
 /// (inside the dispatcher) ends the case with `9999` and the remaining cases run on a fresh runtime
